@@ -19,6 +19,9 @@ import Golib.Proof.C08Main
 import Golib.Proof.C08Off
 import Golib.Proof.C08AesInv
 import Golib.Proof.C08GcmInv
+import Golib.Proof.C08AesSpec
+import Golib.Proof.C08GcmSpec
+import Golib.Proof.C08Arena
 import Golib.Model.C08
 import Golib.Gen.FactsC08
 
@@ -272,6 +275,108 @@ theorem c08_arena_value_semantics (C : Cipher) (A : AEAD) (ops : List String)
   · intro h1 h2
     rw [(c08_gcm_lens A dst pt key nonce ad hseal hk hn h1).2.2,
       (c08_gcm_lens A dst' pt key nonce ad hseal hk hn h2).2.2]
+
+/-! ### The executable primitives are SPECIFIED, not only invertible.
+"Lean AES/GCM compute the same function as crypto/aes, crypto/cipher" stays a TEST (vectors,
+every ciphertext of every run).  What is proved is that the Lean primitives are the textbook
+objects: -/
+
+/-- AES: the S-box table is the affine map of the GF(2^8) inverse (FIPS-197 §5.1.1), where the
+field product `gmul` is the carry-less product reduced modulo x^8+x^4+x^3+x+1 (`pmod8_spec` pins
+`pmod8` down as the remainder map) and `gfInv` is a true inverse; the InvMixColumns matrix times
+the MixColumns matrix is the identity over GF(2^8).  GCM: the GHASH bit loop is the carry-less
+product reduced modulo x^128+x^7+x^2+x+1 in GCM's reflected bit order (`pmod_spec`); `inc32`
+increments the last 32 bits modulo 2^32 and leaves the first 96 alone; the CTR counter of the
+stream mode is a 128-bit big-endian counter. -/
+theorem c08_primitives_are_specified :
+    (∀ b, b < 256 → AES.subByte b = sboxAffine (gfInv b)) ∧
+    (∀ b, 0 < b → b < 256 → AES.gmul b (gfInv b) = 1) ∧
+    (∀ a b, a < 256 → b < 256 → AES.gmul a b = pmod8 (clmulN 8 b a)) ∧
+    (∀ k i, k < 4 → i < 4 →
+      (List.range 4).foldl (fun z j => z ^^^ AES.gmul (mcM'.getD ((j + 4 - k) % 4) 0)
+        (mcM.getD ((i + 4 - j) % 4) 0)) 0 = if k = i then 1 else 0) ∧
+    (∀ x y, x < 2 ^ 128 → y < 2 ^ 128 → GCM.gfMul x y = rev128 (pmod (clmul (rev128 x) (rev128 y)))) ∧
+    (∀ cb : Bytes, cb.length = 16 → (GCM.inc32 cb).length = 16 ∧ (GCM.inc32 cb).take 12 = cb.take 12 ∧
+      GCM.toNatBE ((GCM.inc32 cb).drop 12) = (GCM.toNatBE (cb.drop 12) + 1) % 2 ^ 32) ∧
+    (∀ iv i, GCM.toNatBE (Golib.C09.Enc.ctrBlock iv i) = (GCM.toNatBE iv + i) % 2 ^ 128 ∧
+      (Golib.C09.Enc.ctrBlock iv i).length = 16) :=
+  ⟨sbox_is_algebraic, gfInv_is_inverse, fun a b ha hb => gmul_is_clmul_mod a b ha hb,
+   mix_invmix_matrix_identity, gfMul_is_clmul_mod, inc32_wraps_low32, ctrBlock_is_be128⟩
+
+/-! ### Buffer level (`Model/C08Arena.lean`): the four entry points over ONE arena with a write log -/
+
+open Golib.C08.Arena in
+/-- WRITE SETS.  With all arguments windows of one arena — ANY placement, overlapping or not — and
+for EVERY outcome (nil, error, panic): every write `AESCBCEncrypt` / `AESCBCDecrypt` /
+`AESGCMEncrypt` / `AESGCMDecrypt` logs lies inside the `dst` window, the arena keeps its length,
+and every cell outside `dst` keeps its content.  (CBC: for any `dst`; GCM: `dst` sized by the
+helper — `Seal`/`Open` append into `dst[:0]`, which lands in `dst`'s array iff it fits its capacity,
+and `Open` clears the output on a failed authentication.)  This is what the harness's canary
+check of the `arena` stream tests on the real code. -/
+theorem c08_writes_within_dst (C : Cipher) (A : AEAD) (m : Mem) (dst src key iv ad : Win)
+    (hd : dst.wf m) (hs : src.off + src.len ≤ m.cells.length)
+    (hE : keyOK (m.rd key) = true → ∀ x, x.length = 16 → (C.E (m.rd key) x).length = 16)
+    (hD : keyOK (m.rd key) = true → ∀ x, x.length = 16 → (C.D (m.rd key) x).length = 16)
+    (hseal : ∀ k n p a, (A.sealF k n p a).length = p.length + 16)
+    (hopenlen : ∀ k n c a p, A.openF k n c a = some p → c.length = p.length + 16) :
+    WritesWithin m (aesCBCEncryptA C m dst src key iv).1 dst.off (dst.off + dst.len) ∧
+    WritesWithin m (aesCBCDecryptA C m dst src key iv).1 dst.off (dst.off + dst.len) ∧
+    (dst.len = src.len + gcmTagSize →
+      WritesWithin m (aesGCMEncryptA A m dst src key iv ad).1 dst.off (dst.off + dst.len)) ∧
+    (dst.len + gcmTagSize = src.len ∨ src.len < gcmTagSize →
+      WritesWithin m (aesGCMDecryptA A m dst src key iv ad).1 dst.off (dst.off + dst.len)) :=
+  ⟨cbcEncryptA_writes_within_dst C m dst src key iv hd hE,
+   cbcDecryptA_writes_within_dst C m dst src key iv hd hs hD,
+   gcmEncryptA_writes_within_dst A m dst src key iv ad hd hs hseal,
+   gcmDecryptA_writes_within_dst A m dst src key iv ad hd hs (fun _ => hopenlen _)⟩
+
+open Golib.C08.Arena in
+/-- REFINEMENT.  In the layouts `aes.go` documents — plaintext / ciphertext outside `dst`, or
+starting at `dst`'s first cell (in place); the iv outside `dst` for encryption — the arena run
+returns what the value-level model returns on the window CONTENTS and leaves that result in
+`dst`, whatever `dst` held before: so every value-level theorem above (standard CBC over the
+padded plaintext, round trips, rejection of bad paddings, Seal/Open) transfers to the arena. -/
+theorem c08_arena_refines_value_model (C : Cipher) (A : AEAD) (m : Mem) (dst src key iv ad : Win)
+    (hd : dst.wf m) (hs : src.off + src.len ≤ m.cells.length) (hi : iv.off + iv.len ≤ m.cells.length)
+    (hk : keyOK (m.rd key) = true)
+    (hE : ∀ x, x.length = 16 → (C.E (m.rd key) x).length = 16)
+    (hD : ∀ x, x.length = 16 → (C.D (m.rd key) x).length = 16)
+    (hseal : ∀ k n p a, (A.sealF k n p a).length = p.length + 16)
+    (hopenlen : ∀ k n c a p, A.openF k n c a = some p → c.length = p.length + 16)
+    (hsrc : disjoint dst src ∨ src.off = dst.off) :
+    (iv.len = 16 → dst.len = cbcEncryptLen src.len → disjoint dst iv →
+      (aesCBCEncryptA C m dst src key iv).2 = .ok () ∧
+      aesCBCEncrypt C (m.rd dst) (m.rd src) (m.rd key) (m.rd iv) =
+        .ok ((aesCBCEncryptA C m dst src key iv).1.rd dst)) ∧
+    (iv.len = 16 → 16 ≤ src.len → src.len % 16 = 0 → dst.len = src.len →
+      ∀ lay, lay = .fresh (m.rd dst) ∨ lay = .inplace →
+      aesCBCDecrypt C lay (m.rd src) (m.rd key) (m.rd iv) =
+        match (aesCBCDecryptA C m dst src key iv).2 with
+        | .ok n => .ok (n, (aesCBCDecryptA C m dst src key iv).1.rd dst)
+        | .err e => .err e
+        | .panic => .panic) ∧
+    (0 < iv.len → dst.len = src.len + gcmTagSize →
+      (aesGCMEncryptA A m dst src key iv ad).2 = .ok () ∧
+      aesGCMEncrypt A (m.rd dst) (m.rd src) (m.rd key) (m.rd iv) (m.rd ad) =
+        .ok ((aesGCMEncryptA A m dst src key iv ad).1.rd dst)) ∧
+    (0 < iv.len → dst.len + gcmTagSize = src.len →
+      (∀ p, A.openF (m.rd key) (m.rd iv) (m.rd src) (m.rd ad) = some p →
+        (aesGCMDecryptA A m dst src key iv ad).2 = .ok () ∧
+        (aesGCMDecryptA A m dst src key iv ad).1.rd dst = p) ∧
+      (A.openF (m.rd key) (m.rd iv) (m.rd src) (m.rd ad) = none →
+        (aesGCMDecryptA A m dst src key iv ad).2 = .err "open")) := by
+  refine ⟨?_, ?_, ?_, ?_⟩
+  · intro h16 hsz hdiv
+    have := cbcEncryptA_refines C m dst src key iv hd hs hi hE hk h16 hsz hdiv hsrc
+    exact ⟨this.1, this.2.2⟩
+  · intro h16 hge hmul hsz lay hlay
+    exact (cbcDecryptA_refines C m dst src key iv lay hd hs hi hD hk h16 hge hmul hsz hsrc hlay).2
+  · intro hn hsz
+    have := gcmEncryptA_refines A m dst src key iv ad hd hs hseal hk hn hi hsz hsrc
+    exact ⟨this.1, this.2.2⟩
+  · intro hn hsz
+    have := gcmDecryptA_refines A m dst src key iv ad hd hs hopenlen hk hn hi hsz hsrc
+    exact ⟨fun p hp => ⟨(this.1 p hp).1, (this.1 p hp).2.1⟩, fun h => (this.2 h).1⟩
 
 /-- The facts the model hard-codes, against `Golib/Gen/FactsC08.lean`, which the go/ast
 extractor regenerates from `cryptz/aes.go` on every run: the constants, the size of the
